@@ -358,15 +358,68 @@ def covariable_arguments():
         defs2 = (f"def chk({sig}): i64 {{ {body} }}\n"
                  f"def clamp(x: i64, lim: i64): i64 {{ label fail {{ (label done {{ 0 - (chk({args})) }}) + 1000 }} }}\n")
         out.append({'name': f"covar-args/definition/{'-'.join(o)}", 'src': prog("println_i64(clamp(a, b)); clamp(b, a)", extra_defs=defs2)})
+        # an inner variable / label reuses the name of one covariable parameter while the other covariables stay in use
+        shadow = {
+            'let-ok': "let ok: i64 = x * 2; if ok == 10 { goto err (ok + 1) } else { if ok < lim { ok + 3 } else { goto err (lim) } }",
+            'let-err': "let err: i64 = x * 2; if err == 10 { goto ok (err + 1) } else { err + 3 }",
+            'label-err': "label err { if x < lim { goto ok (x) } else { if x == lim { goto err (7) } else { x + 1 } } }",
+            'label-ok': "(label ok { if x < lim { goto ok (x) } else { goto err (lim) } }) + 5",
+        }
+        for sk, sbody in shadow.items():
+            defs3 = (f"def chk({sig}): i64 {{ {sbody} }}\n"
+                     f"def clamp(x: i64, lim: i64): i64 {{ label fail {{ (label done {{ 0 - (chk({args})) }}) + 1000 }} }}\n")
+            out.append({'name': f"covar-args/shadowed/{sk}/{'-'.join(o)}", 'src': prog("println_i64(clamp(a, b)); clamp(b, a)", extra_defs=defs3)})
+            defs4 = (f"def below(): Guard {{ new {{ check({', '.join(o)}) => {sbody} }} }}\n"
+                     f"def clamp(g: Guard, x: i64, lim: i64): i64 {{ label fail {{ (label done {{ 0 - (g.check({args})) }}) + 1000 }} }}\n")
+            out.append({'name': f"covar-args/shadowed-method/{sk}/{'-'.join(o)}", 'src': decl + prog("println_i64(clamp(below(), a, b)); clamp(below(), b, a)", extra_defs=defs4)})
+    return out
+
+
+def conditional_operand_effects():
+    """effects (print, goto, exit) in BOTH operands of a conditional, for all six comparison sorts in the two-operand form
+    and in the compare-with-zero form: operands are evaluated left to right (they are not call / constructor /
+    destructor / operator arguments, so these programs are inside the effect-sequenced fragment of C01 / C02)"""
+    out = []
+    eff = {
+        'print': "(print_i64({e}); {e})",
+        'goto': "(if {e} == 4 {{ goto k ({e}) }} else {{ (print_i64({e}); {e} + 1) }})",
+        'exit': "(if {e} == 3 {{ exit 9 }} else {{ (println_i64({e}); {e}) }})",
+    }
+    for sk, sort in (('eq', '=='), ('ne', '!='), ('lt', '<'), ('le', '<='), ('gt', '>'), ('ge', '>=')):
+        for ek, et in eff.items():
+            x, y = et.format(e="a"), et.format(e="b")
+            out.append({'name': f"if-effects/{sk}/{ek}/two", 'src': prog(f"label k {{ if {x} {sort} {y} {{ a - b }} else {{ b - a }} }}")})
+            out.append({'name': f"if-effects/{sk}/{ek}/zero", 'src': prog(f"label k {{ if {x} {sort} 0 {{ a + 1 }} else {{ b + 2 }} }}")})
+    return out
+
+
+def goto_in_arguments():
+    """a goto directly in argument position where the parameter is evaluated by name (codata) and the label by value, or
+    the other way round: the jump must happen exactly when the argument is evaluated / forced"""
+    out = []
+    later = ("def later(f: Fun[i64, i64], x: i64): i64 { println_i64(x); f.apply[i64, i64](x) }\n"
+             "def ignore(f: Fun[i64, i64], x: i64): i64 { println_i64(x); x + 1 }\n"
+             "def twice(s: Stream[i64], x: i64): i64 { println_i64(x); (s.head[i64]) + (s.head[i64]) }\n")
+    bodies = {
+        'call-forced': "label k { later(goto k (a), b) + 1000 }",
+        'call-ignored': "label k { ignore(goto k (a), b) + 1000 }",
+        'call-stream': "label k { twice(goto k (a - b), b) + 1000 }",
+        'ctor-field': "label k { (Cons(a, Nil).case[i64] { Nil => 0, Cons(h, t) => later(goto k (h), b) }) + 1000 }",
+        'dtor-arg': "label k { (new { apply(x) => later(goto k (x), b) }.apply[i64, i64](a)) + 1000 }",
+        'codata-label-int-arg': "(label k { new { apply(x) => id(goto k (new { apply(y) => y + b })) + 1 } }).apply[i64, i64](a)",
+        'codata-label-op-arg': "(label k { new { apply(x) => sub2(x, goto k (new { apply(y) => y - b })) } }).apply[i64, i64](a)",
+    }
+    for k, b in bodies.items():
+        out.append({'name': f"goto-args/{k}", 'src': prog(b, extra_defs=later)})
     return out
 
 
 def all_programs(tier='quick'):
     ps = name_reuse(("v", "x0") if tier == 'quick' else ("v", "x0", "a0", "x")) + generated_names() + effects_in_arguments() + cut_shapes() + live_variables()
-    return ps + fresh_clash() + lift_order() + positions_and_codata() + clause_orders_and_nested_types() + argument_permutations(tier) + scrutinee_reuse() + nested_labels() + covariable_arguments()
+    return ps + fresh_clash() + lift_order() + positions_and_codata() + clause_orders_and_nested_types() + argument_permutations(tier) + scrutinee_reuse() + nested_labels() + covariable_arguments() + conditional_operand_effects() + goto_in_arguments()
 
 
 def effect_sequenced(tier='quick'):
     """programs inside the fragment where Fun's evaluation order is unambiguous (C01, C02): no effects in call /
     constructor / destructor / operator arguments and no effects under codata-typed bindings"""
-    return name_reuse(("v", "x0") if tier == 'quick' else ("v", "x0", "a0", "x")) + generated_names() + cut_shapes() + live_variables() + fresh_clash() + lift_order() + [p for p in positions_and_codata() if not p['name'].startswith('codata-eff')] + clause_orders_and_nested_types() + argument_permutations(tier) + scrutinee_reuse() + nested_labels() + covariable_arguments()
+    return name_reuse(("v", "x0") if tier == 'quick' else ("v", "x0", "a0", "x")) + generated_names() + cut_shapes() + live_variables() + fresh_clash() + lift_order() + [p for p in positions_and_codata() if not p['name'].startswith('codata-eff')] + clause_orders_and_nested_types() + argument_permutations(tier) + scrutinee_reuse() + nested_labels() + covariable_arguments() + conditional_operand_effects()
